@@ -81,10 +81,19 @@ type runInfo struct {
 func CheckBytes(m *minify.M, typ string, in []byte) (kind, what string) {
 	orig := append([]byte{}, in...)
 	arg := append(make([]byte, 0, len(in)+8), in...) // spare capacity: parse.NewInput writes a NUL behind the data and must restore it
+	guard := arg[len(in) : len(in)+8]
+	for i := range guard {
+		guard[i] = 0xA5 // the caller's bytes behind the slice (another slice of the same array may hold them)
+	}
 	var out []byte
 	var err error
 	if p := core.Recover(func() { out, err = m.Bytes(typ, arg) }); p != "" {
 		return "panic", "Bytes: " + p
+	}
+	for i := range guard {
+		if guard[i] != 0xA5 {
+			return "caller-slice-mutated", fmt.Sprintf("Bytes left byte %d behind the end of the caller's slice (within its capacity) as %#x instead of restoring it", i, guard[i])
+		}
 	}
 	if err != nil {
 		if !bytes.Equal(out, orig) {
@@ -212,6 +221,37 @@ func Run(c *core.Check) {
 			c.AddFamily(fam2, 1, 0)
 			if kind != "" {
 				c.Fail(core.Failure{Family: fam2, Input: string(in), Config: typ + " default", Kind: kind, What: what, Order: i})
+			}
+		})
+	}
+	// CSS declarations: every property with a branch of its own in the property rewriter x every sequence of <=3 value symbols,
+	// closed and cut off by the end of the input (strings, functions and blocks left open)
+	{
+		props := []string{"font", "font-family", "font-weight", "url", "src", "margin", "padding", "border-width", "border", "border-top", "outline", "background", "background-size", "background-repeat", "background-position", "box-shadow", "-ms-filter", "filter", "color", "background-color", "border-color", "border-left-color", "text-decoration-color", "caret-color", "fill", "column-rule", "text-shadow", "text-decoration", "text-emphasis", "flex", "flex-basis", "order", "flex-grow", "flex-shrink", "unicode-range", "transition", "grid-area", "z-index", "--x", "content"}
+		vals := []string{"0", "1px", "'", "\"", "(", ")", ",", "/", " ", "local(", "url(", "rgb(", "#fff", "a", "!important", "-", ".5", "%", "\\", "calc(", "var(--x)", ";", "}", "\x00", "format(", "U+0-7F", "none", "bold", "red", "left", "1e3", "auto"}
+		n := c.Pick(2, 3)
+		seq := core.Sequences{K: len(vals), MaxLen: n}
+		dfam := "css-declarations"
+		c.Family(dfam).Bound = fmt.Sprintf("%d properties x all sequences of <=%d of %d value symbols x {rule, unclosed rule, style attribute}", len(props), n, len(vals))
+		mdef := regs["default"]()
+		c.ParallelRange(dfam, uint64(len(props))*seq.Count(), func(i uint64) {
+			p := props[i%uint64(len(props))]
+			var b strings.Builder
+			for _, k := range seq.At(i/uint64(len(props)), nil) {
+				b.WriteString(vals[k])
+			}
+			for vi, in := range []string{"a{" + p + ":" + b.String() + "}", "a{" + p + ":" + b.String(), "<p style=\"" + strings.ReplaceAll(p+":"+b.String(), "\"", "&quot;") + "\">"} {
+				typ := "text/css"
+				if vi == 2 {
+					typ = "text/html"
+				}
+				var kind, what string
+				track(fmt.Sprintf("%s default %q", typ, in), func() { kind, what = CheckBytes(mdef, typ, []byte(in)) })
+				c.Count(1)
+				c.AddFamily(dfam, 1, 1)
+				if kind != "" {
+					c.Fail(core.Failure{Family: dfam, Input: in, Config: typ + " default", Kind: kind, What: what, Order: i})
+				}
 			}
 		})
 	}
